@@ -76,7 +76,7 @@ def gen_curves(ctx):
         rng.shuffle(order)
         sorted_supply = order == sorted(order)
         ad = 0 if rng.random() < 0.75 else rng.choice([1, 2])
-        cid = rng.choice(["v", "crv", "eur_ois", "x1"])
+        cid = rng.choice(["v", "crv", "eur_ois", "x1", "usd\n", " v"])
         nodes = []
         for i in order:
             if ad == 0 or path == 1:
